@@ -277,6 +277,9 @@ func c11Resolve(tbl c11Table, in rtoks, di int, nontrivial bool) Case {
 	if (o.panicv == "" || cyc1) && (cyc1 != cyc2 || (!cyc1 && (o.panicv2 != "" || o.res2 != o.res))) {
 		fail = append(fail, fmt.Sprintf("a long-lived resolver (same delimiters, lookup function reading the current table) answered %q / panic %q, a fresh one %q / panic %q", o.res2, o.panicv2, o.res, o.panicv))
 	}
+	if c11Count%200 == 1 { // fixed probes outside the token alphabet, once per 200 cases and delimiter triple in turn
+		fail = append(fail, c11Probe(di)...)
+	}
 	if indexTok(in, tPRE) < 0 && o.res != input {
 		fail = append(fail, "Resolve(s) != s for s without a prefix")
 	}
